@@ -1,6 +1,7 @@
 """Verification of one unit (a real function of /repo against its sidecar contract) and of
 contract-level lemmas; VC discharge with z3 (cvc5 on unknown)."""
 import ast
+import json
 import os
 import subprocess
 import tempfile
@@ -137,6 +138,8 @@ def verify_unit(reg, contract, tier="quick"):
     except Unsupported as e:
         res.status = "unsupported"
         res.message = str(e)
+        if os.environ.get("PYVC_TRACE"):
+            res.message += "\n" + traceback.format_exc()
         res.time = time.time() - t0
         reg.current = None
         return res, ex
@@ -701,6 +704,7 @@ def model_inputs(ex, pre, model, terms=None):
     """Evaluate the unit's input symbols (parameters, fields of declared objects) in a counter-model."""
     out = {}
     lits = _literals(terms)
+    scratch = pre.copy()        # elements of untrusted lists are materialised here while the model is read
 
     def conv(v):
         if isinstance(v, (VInt,)):
@@ -737,10 +741,50 @@ def model_inputs(ex, pre, model, terms=None):
                 if z3.is_true(model.eval(g, model_completion=True)):
                     return conv(a)
             return "?"
+        if isinstance(v, VOpaque):
+            return "<opaque>"
         if isinstance(v, VRef):
-            o = pre.heap.get(v.oid)
+            o = scratch.heap.get(v.oid)
             if o is None:
                 return "<ref>"
+            if o.kind == "ulist":
+                n = model.eval(o.n, model_completion=True)
+                nn = n.as_long() if z3.is_int_value(n) else 0
+                idxs = list(range(nn))
+                if nn > 12:
+                    # a long list in the model: keep the positions the model says something about (explicit entries of
+                    # the element functions); the shortened list is a *candidate* input, judged by the replay
+                    pos = len(o.uctx[1])
+                    hot = set()
+                    for d in model.decls():
+                        if d.arity() > pos and d.name().startswith(o.uctx[0] + "!"):
+                            fi = model[d]
+                            try:
+                                for k in range(fi.num_entries()):
+                                    a = fi.entry(k).arg_value(pos)
+                                    if z3.is_int_value(a) and 0 <= a.as_long() < nn:
+                                        hot.add(a.as_long())
+                                # piecewise interpretations (If(.. 1063 <= Var(1) ..)): positions around the thresholds
+                                for e in _literals([fi.else_value()]):
+                                    if z3.is_int_value(e):
+                                        hot.update(c for c in (e.as_long() - 1, e.as_long(), e.as_long() + 1) if 0 <= c < nn)
+                            except (z3.Z3Exception, AttributeError):
+                                pass
+                    vals, seen = [], set()
+                    for i in sorted(hot) or range(4):
+                        cv = conv(ex.reg.ulist_get(ex, scratch, o, z3.IntVal(i)))
+                        key = json.dumps(cv, sort_keys=True, default=str)
+                        if key not in seen:         # one representative of each distinct element
+                            seen.add(key)
+                            vals.append(cv)
+                    return vals[:12]
+                return [conv(ex.reg.ulist_get(ex, scratch, o, z3.IntVal(i))) for i in idxs]
+            if o.kind == "udict":
+                d = {str(k): conv(x) for k, x in o.d.items() if z3.is_true(model.eval(o.opt[k], model_completion=True))}
+                r = {"dict": d}
+                if z3.is_true(model.eval(o.other, model_completion=True)):
+                    r["other_key"] = conv(o.other_key)
+                return r
             if o.kind == "inst":
                 return {"$obj": pre.paths.get(v.oid, "?")}
             if o.kind == "list":
